@@ -4,7 +4,8 @@
 //   LayBcsr   dim 2   SaddlePointMatrix<BCSR<2,2>, BCSR<2,1>, BCSR<1,2>>,          TupleVector<DenseVectorBlocked<2>, DenseVector>   (node-major)
 //   LayPDiag  dim 2   SaddlePointMatrix<PowerDiag<CSR,2>, PowerCol<CSR,2>, PowerRow<CSR,2>>, TupleVector<PowerVector<DenseVector,2>, DenseVector> (component-major)
 //   LayPFull  dim 2   the same with PowerFullMatrix<CSR,2,2> for A
-// every layout offers: build(n, m, patA, patB, patD), set_values(dense M), set / get of flat vectors, filter(FV nodes, FP dofs)
+// every layout offers: build(n, m, patA, patB, patD), set_values(dense M), set / get of flat vectors, filter(FV nodes, FP dofs, mean)
+// The pressure filter is the chain  UnitFilter(FP) ; MeanFilter(prim, dual)  (PFil; an empty MeanFilter is the identity).
 #pragma once
 #include "vc08x.hpp"
 #include <kernel/lafem/sparse_matrix_bcsr.hpp>
@@ -20,6 +21,8 @@
 #include <kernel/lafem/power_col_matrix.hpp>
 #include <kernel/lafem/unit_filter.hpp>
 #include <kernel/lafem/unit_filter_blocked.hpp>
+#include <kernel/lafem/mean_filter.hpp>
+#include <kernel/lafem/filter_chain.hpp>
 
 namespace vx
 {
@@ -29,6 +32,23 @@ namespace vx
   typedef LAFEM::SparseMatrixCSR<DT, IT> Csr;
   typedef LAFEM::DenseVector<DT, IT> DVecT;
   typedef LAFEM::UnitFilter<DT, IT> UFil;
+  typedef LAFEM::MeanFilter<DT, IT> MFil;
+  typedef LAFEM::FilterChain<UFil, MFil> PFil;
+  // pressure filter: unit filter on the dofs fp (1-based), then - if given - the mean filter with primal / dual vector mp / md
+  inline PFil pressure_filter(Index m, const std::vector<long long>& fp, const DVec& mp, const DVec& md)
+  {
+    UFil p(m);
+    for(long long i : fp) p.add(Index(i - 1), DT(0));
+    PFil f;
+    f.at<0>() = std::move(p);
+    if(!mp.empty())
+    {
+      DVecT vp(m), vd(m);
+      for(Index i = 0; i < m; ++i) { vp(i, mp[i]); vd(i, md[i]); }
+      f.at<1>() = MFil(std::move(vp), std::move(vd));
+    }
+    return f;
+  }
 
   inline Adjacency::Graph graph_of(Index rows, Index cols, const Pat& pat)
   {
@@ -59,10 +79,11 @@ namespace vx
 
   struct LayCsr
   {
+    static constexpr bool flat = false;
     static constexpr int dim = 1;
     typedef LAFEM::SaddlePointMatrix<Csr, Csr, Csr> Matrix;
     typedef LAFEM::TupleVector<DVecT, DVecT> Vector;
-    typedef LAFEM::TupleFilter<UFil, UFil> Filter;
+    typedef LAFEM::TupleFilter<UFil, PFil> Filter;
     static const char* name() { return "csr"; }
     static Matrix build(Index n, Index m, const Pat& pa, const Pat& pb, const Pat& pd)
     {
@@ -77,23 +98,53 @@ namespace vx
     { for(Index i = 0; i < n; ++i) v.at<0>()(i, f[i]); for(Index i = 0; i < m; ++i) v.at<1>()(i, f[n + i]); }
     static DVec get(const Vector& v, Index n, Index m)
     { DVec f(n + m); for(Index i = 0; i < n; ++i) f[i] = v.at<0>()(i); for(Index i = 0; i < m; ++i) f[n + i] = v.at<1>()(i); return f; }
-    static Filter filter(Index n, Index m, const std::vector<long long>& fv, const std::vector<long long>& fp)
+    static Filter filter(Index n, Index m, const std::vector<long long>& fv, const std::vector<long long>& fp, const DVec& mp = DVec(), const DVec& md = DVec())
     {
-      UFil v(n), p(m);
+      UFil v(n);
       for(long long i : fv) v.add(Index(i - 1), DT(0));
-      for(long long i : fp) p.add(Index(i - 1), DT(0));
-      return Filter(std::move(v), std::move(p));
+      return Filter(std::move(v), pressure_filter(m, fp, mp, md));
+    }
+  };
+
+  // the whole saddle-point system as ONE SparseMatrixCSR (dim 1, flat numbering of the specification; the pressure-pressure block is
+  // structurally empty), DenseVector, filter = FilterChain<UnitFilter, MeanFilter> on the flat vector (the mean filter acts on the
+  // pressure dofs: its primal / dual vectors vanish on the velocity dofs)
+  struct LayFlatCsr
+  {
+    static constexpr int dim = 1;
+    static constexpr bool flat = true;
+    typedef Csr Matrix;
+    typedef DVecT Vector;
+    typedef PFil Filter;
+    static const char* name() { return "csr"; }
+    static Matrix build(Index n, Index m, const Pat& pa, const Pat& pb, const Pat& pd)
+    {
+      Pat p(n + m, std::vector<int>(n + m, 0));
+      for(Index i = 0; i < n; ++i) { for(Index j = 0; j < n; ++j) p[i][j] = pa[i][j]; for(Index q = 0; q < m; ++q) { p[i][n + q] = pb[i][q]; p[n + q][i] = pd[q][i]; } }
+      return Csr(graph_of(n + m, n + m, p));
+    }
+    static void set_values(Matrix& mat, const DMat& M, Index, Index) { fill_csr(mat, M, 0, 1, 0, 1); }
+    static void set(Vector& v, const DVec& f, Index n, Index m) { for(Index i = 0; i < n + m; ++i) v(i, f[i]); }
+    static DVec get(const Vector& v, Index n, Index m) { DVec f(n + m); for(Index i = 0; i < n + m; ++i) f[i] = v(i); return f; }
+    static Filter filter(Index n, Index m, const std::vector<long long>& fv, const std::vector<long long>& fp, const DVec& mp = DVec(), const DVec& md = DVec())
+    {
+      std::vector<long long> fd(fv);
+      for(long long q : fp) fd.push_back((long long)n + q);
+      DVec p, d;
+      if(!mp.empty()) { p.assign(n, 0.0); d.assign(n, 0.0); p.insert(p.end(), mp.begin(), mp.end()); d.insert(d.end(), md.begin(), md.end()); }
+      return pressure_filter(n + m, fd, p, d);
     }
   };
 
   struct LayBcsr
   {
+    static constexpr bool flat = false;
     static constexpr int dim = 2;
     typedef LAFEM::SparseMatrixBCSR<DT, IT, 2, 2> MA; typedef LAFEM::SparseMatrixBCSR<DT, IT, 2, 1> MB; typedef LAFEM::SparseMatrixBCSR<DT, IT, 1, 2> MD;
     typedef LAFEM::SaddlePointMatrix<MA, MB, MD> Matrix;
     typedef LAFEM::DenseVectorBlocked<DT, IT, 2> VV;
     typedef LAFEM::TupleVector<VV, DVecT> Vector;
-    typedef LAFEM::TupleFilter<LAFEM::UnitFilterBlocked<DT, IT, 2>, UFil> Filter;
+    typedef LAFEM::TupleFilter<LAFEM::UnitFilterBlocked<DT, IT, 2>, PFil> Filter;
     static const char* name() { return "bcsr"; }
     static Matrix build(Index n, Index m, const Pat& pa, const Pat& pb, const Pat& pd)
     {
@@ -117,26 +168,26 @@ namespace vx
       for(Index i = 0; i < m; ++i) f[2 * n + i] = v.at<1>()(i);
       return f;
     }
-    static Filter filter(Index n, Index m, const std::vector<long long>& fv, const std::vector<long long>& fp)
+    static Filter filter(Index n, Index m, const std::vector<long long>& fv, const std::vector<long long>& fp, const DVec& mp = DVec(), const DVec& md = DVec())
     {
-      LAFEM::UnitFilterBlocked<DT, IT, 2> v(n); UFil p(m);
+      LAFEM::UnitFilterBlocked<DT, IT, 2> v(n);
       Tiny::Vector<DT, 2> z; z.format();
       for(long long i : fv) v.add(Index(i - 1), z);
-      for(long long i : fp) p.add(Index(i - 1), DT(0));
-      return Filter(std::move(v), std::move(p));
+      return Filter(std::move(v), pressure_filter(m, fp, mp, md));
     }
   };
 
   template<bool full_>
   struct LayPower
   {
+    static constexpr bool flat = false;
     static constexpr int dim = 2;
     typedef typename std::conditional<full_, LAFEM::PowerFullMatrix<Csr, 2, 2>, LAFEM::PowerDiagMatrix<Csr, 2>>::type MA;
     typedef LAFEM::PowerColMatrix<Csr, 2> MB; typedef LAFEM::PowerRowMatrix<Csr, 2> MD;
     typedef LAFEM::SaddlePointMatrix<MA, MB, MD> Matrix;
     typedef LAFEM::PowerVector<DVecT, 2> VV;
     typedef LAFEM::TupleVector<VV, DVecT> Vector;
-    typedef LAFEM::TupleFilter<LAFEM::PowerFilter<UFil, 2>, UFil> Filter;
+    typedef LAFEM::TupleFilter<LAFEM::PowerFilter<UFil, 2>, PFil> Filter;
     static const char* name() { return full_ ? "pfull" : "pdiag"; }
     static void build_a(LAFEM::PowerFullMatrix<Csr, 2, 2>& a, Index n, const Pat& pa)
     {
@@ -181,13 +232,12 @@ namespace vx
       for(Index i = 0; i < m; ++i) f[2 * n + i] = v.template at<1>()(i);
       return f;
     }
-    static Filter filter(Index n, Index m, const std::vector<long long>& fv, const std::vector<long long>& fp)
+    static Filter filter(Index n, Index m, const std::vector<long long>& fv, const std::vector<long long>& fp, const DVec& mp = DVec(), const DVec& md = DVec())
     {
-      UFil v0(n), v1(n), p(m);
+      UFil v0(n), v1(n);
       for(long long i : fv) { v0.add(Index(i - 1), DT(0)); v1.add(Index(i - 1), DT(0)); }
-      for(long long i : fp) p.add(Index(i - 1), DT(0));
       LAFEM::PowerFilter<UFil, 2> pv; pv.template at<0>() = std::move(v0); pv.template at<1>() = std::move(v1);
-      return Filter(std::move(pv), std::move(p));
+      return Filter(std::move(pv), pressure_filter(m, fp, mp, md));
     }
   };
   typedef LayPower<false> LayPDiag;
